@@ -14,6 +14,10 @@ CHECKS = {
    tech="TLA+ spec JtDims (ParseTok/ParseSpec as a function of the modifier SET); TLC checks totality/order-freedom/'=' neutrality over all tokens of <=4 modifier characters; every token and every short token sequence is built for real and its acceptance vector over 15 probe shapes is re-decided by TLC",
    text="All 6.2k tokens (every order, repeats included) and all sequences of <=3 (quick) / 4 (thorough) tokens from an 11-token alphabet, rendered with random whitespace: exception type at construction and meaning (acceptance vector under fixed prior bindings, '?' tokens probed inside a one-leaf structured PyTree) must be what the specification allows.",
    note="Meaning is compared through 15 probe shapes under one prior context, not symbolically. Forms the documentation leaves open (empty base without '_', 'name=...') are allowed to build or to raise ValueError."),
+ "C04": dict(cat="model_checking", sec="5 C04",
+   tech="TLA+ spec JtCheckFine (interruptible walk with Commit/Rollback and fault actions; broken rollback modes refuted by TLC) + JtArray; rows with faults injected at every call-out position executed on the code and re-decided by TLC (Rows_JtFault)",
+   text="TLC proves NothingBoundOnFailure on the interruptible-walk model for every (context, annotation, shape, fault position, exception class) of the bounded universe and refutes it for the two broken rollback modes; every row is executed on the real isinstance - plain, with an Exception/BaseException injected at the k-th .shape access or {arg}.__format__, repeated when it passed, followed by probe checks after a failure, flat and nested spellings - and TLC re-decides verdict, post-context, idempotence and probes.",
+   note="Call-outs considered: .shape accesses and __format__ of {args}. The PyTree half (k-th leaf, structure names) is bound through harness/pytree_rows when present. Exhaustive within the stated constants only."),
 }
 NOT_YET = {}
 
